@@ -151,8 +151,6 @@ Proof.
     rewrite Z.rem_opp_opp by lia. rewrite Z.rem_mod_nonneg by lia. apply u_neg_opp.
 Qed.
 
-Lemma addmod_ok a b c : in_word a -> in_word b -> in_word c -> i_addmod a b c = m_addmod a b c.
-Proof. intros. unfold i_addmod, m_addmod, u_addmod. reflexivity. Qed.
 Lemma mulmod_ok a b c : in_word a -> in_word b -> in_word c -> i_mulmod a b c = m_mulmod a b c.
 Proof.
   intros [? ?] [? ?] [? ?]. unfold i_mulmod, m_mulmod, u_mulmod.
@@ -162,11 +160,141 @@ Proof.
   reflexivity.
 Qed.
 
-Lemma cmp_ok :
-  (forall a b, i_lt a b = m_lt a b) /\ (forall a b, i_gt a b = m_gt a b) /\ (forall a b, i_eq a b = m_eq a b) /\
-  (forall a, i_iszero a = m_iszero a) /\ (forall a b, i_and a b = m_and a b) /\ (forall a b, i_or a b = m_or a b) /\
-  (forall a b, i_xor a b = m_xor a b).
+(* ---------------- limb-level comparisons (Lt by the borrow chain, Eq limb by limb, IsZero by OR of the limbs) *)
+Lemma limb_spec x i : 0 <= i -> limb x i = (x / 2 ^ (64 * i)) mod 2 ^ 64.
+Proof.
+  intros. unfold limb. change 18446744073709551615 with (Z.ones 64).
+  rewrite Z.land_ones by lia. rewrite Z.shiftr_div_pow2 by lia. reflexivity.
+Qed.
+Lemma limbs_decomp x : 0 <= x < W ->
+  x = limb x 0 + 2 ^ 64 * limb x 1 + 2 ^ 128 * limb x 2 + 2 ^ 192 * limb x 3 /\
+  0 <= limb x 0 < 2 ^ 64 /\ 0 <= limb x 1 < 2 ^ 64 /\ 0 <= limb x 2 < 2 ^ 64 /\ 0 <= limb x 3 < 2 ^ 64.
+Proof.
+  intros Hx. rewrite W_eq in Hx. rewrite !limb_spec by lia.
+  change (64 * 0) with 0. change (64 * 1) with 64. change (64 * 2) with 128. change (64 * 3) with 192.
+  rewrite Z.pow_0_r, Z.div_1_r.
+  assert (H1 : x / 2 ^ 128 = x / 2 ^ 64 / 2 ^ 64) by (rewrite Z.div_div by lia; reflexivity).
+  assert (H2 : x / 2 ^ 192 = x / 2 ^ 64 / 2 ^ 64 / 2 ^ 64) by (rewrite !Z.div_div by lia; reflexivity).
+  rewrite H1, H2.
+  set (a := x / 2 ^ 64). set (b := a / 2 ^ 64). set (c := b / 2 ^ 64).
+  pose proof (Z.div_mod x (2 ^ 64) ltac:(lia)) as D0. pose proof (Z.mod_pos_bound x (2 ^ 64) ltac:(lia)) as B0.
+  pose proof (Z.div_mod a (2 ^ 64) ltac:(lia)) as D1. pose proof (Z.mod_pos_bound a (2 ^ 64) ltac:(lia)) as B1.
+  pose proof (Z.div_mod b (2 ^ 64) ltac:(lia)) as D2. pose proof (Z.mod_pos_bound b (2 ^ 64) ltac:(lia)) as B2.
+  pose proof (Z.mod_pos_bound c (2 ^ 64) ltac:(lia)) as B3.
+  fold a in D0. fold b in D1. fold c in D2.
+  assert (Hc : 0 <= c < 2 ^ 64).
+  { unfold c, b, a. rewrite !Z.div_div by lia. split. apply Z.div_pos; lia. apply Z.div_lt_upper_bound; lia. }
+  rewrite (Z.mod_small c) by lia.
+  change (2 ^ 128) with (2 ^ 64 * 2 ^ 64). change (2 ^ 192) with (2 ^ 64 * 2 ^ 64 * 2 ^ 64).
+  repeat split; try lia.
+Qed.
+
+Lemma u_lt_spec z x : in_word z -> in_word x -> u_lt z x = (z <? x).
+Proof.
+  intros Hz Hx. destruct (limbs_decomp z Hz) as (Ez & Z0 & Z1 & Z2 & Z3).
+  destruct (limbs_decomp x Hx) as (Ex & X0 & X1 & X2 & X3).
+  unfold u_lt, borrow64.
+  set (z0 := limb z 0) in *. set (z1 := limb z 1) in *. set (z2 := limb z 2) in *. set (z3 := limb z 3) in *.
+  set (x0 := limb x 0) in *. set (x1 := limb x 1) in *. set (x2 := limb x 2) in *. set (x3 := limb x 3) in *.
+  change (2 ^ 64) with 18446744073709551616 in *.
+  change (2 ^ 128) with (18446744073709551616 * 18446744073709551616) in *.
+  change (2 ^ 192) with (18446744073709551616 * 18446744073709551616 * 18446744073709551616) in *.
+  cbn [b2w].
+  destruct (Z.ltb_spec z0 (x0 + 0)); cbn [b2w];
+  match goal with |- context [z1 <? ?b] => destruct (Z.ltb_spec z1 b) end; cbn [b2w];
+  match goal with |- context [z2 <? ?b] => destruct (Z.ltb_spec z2 b) end; cbn [b2w];
+  match goal with |- context [z3 <? ?b] => destruct (Z.ltb_spec z3 b) end;
+  destruct (Z.ltb_spec z x); try reflexivity; exfalso; lia.
+Qed.
+Lemma u_eq_spec z x : in_word z -> in_word x -> u_eq z x = (z =? x).
+Proof.
+  intros Hz Hx. destruct (limbs_decomp z Hz) as (Ez & _). destruct (limbs_decomp x Hx) as (Ex & _).
+  unfold u_eq.
+  destruct (Z.eqb_spec (limb z 0) (limb x 0)) as [E0|N0]; cbn [andb].
+  2:{ destruct (Z.eqb_spec z x); [subst; congruence|reflexivity]. }
+  destruct (Z.eqb_spec (limb z 1) (limb x 1)) as [E1|N1]; cbn [andb].
+  2:{ destruct (Z.eqb_spec z x); [subst; congruence|reflexivity]. }
+  destruct (Z.eqb_spec (limb z 2) (limb x 2)) as [E2|N2]; cbn [andb].
+  2:{ destruct (Z.eqb_spec z x); [subst; congruence|reflexivity]. }
+  destruct (Z.eqb_spec (limb z 3) (limb x 3)) as [E3|N3].
+  2:{ destruct (Z.eqb_spec z x); [subst; congruence|reflexivity]. }
+  destruct (Z.eqb_spec z x); [reflexivity|]. exfalso. rewrite Ez, Ex, E0, E1, E2, E3 in n. congruence.
+Qed.
+Lemma u_iszero_spec z : in_word z -> u_iszero z = (z =? 0).
+Proof.
+  intros Hz. destruct (limbs_decomp z Hz) as (Ez & Z0 & Z1 & Z2 & Z3). unfold u_iszero.
+  destruct (Z.eqb_spec (Z.lor (Z.lor (Z.lor (limb z 0) (limb z 1)) (limb z 2)) (limb z 3)) 0) as [E|N].
+  - apply Z.lor_eq_0_iff in E. destruct E as (E & E3). apply Z.lor_eq_0_iff in E. destruct E as (E & E2).
+    apply Z.lor_eq_0_iff in E. destruct E as (E0 & E1). rewrite Ez, E0, E1, E2, E3. reflexivity.
+  - destruct (Z.eqb_spec z 0) as [->|]; [|reflexivity]. exfalso. apply N. reflexivity.
+Qed.
+
+
+Lemma lt_ok a b : in_word a -> in_word b -> i_lt a b = m_lt a b.
+Proof. intros. unfold i_lt, m_lt. rewrite u_lt_spec by assumption. reflexivity. Qed.
+Lemma gt_ok a b : in_word a -> in_word b -> i_gt a b = m_gt a b.
+Proof. intros. unfold i_gt, m_gt. rewrite u_lt_spec by assumption. reflexivity. Qed.
+Lemma eq_ok a b : in_word a -> in_word b -> i_eq a b = m_eq a b.
+Proof. intros. unfold i_eq, m_eq. rewrite u_eq_spec by assumption. reflexivity. Qed.
+Lemma iszero_ok a : in_word a -> i_iszero a = m_iszero a.
+Proof. intros. unfold i_iszero, m_iszero. rewrite u_iszero_spec by assumption. reflexivity. Qed.
+
+(* definitional: the model represents limb-wise AND / OR / XOR by Z.land / Z.lor / Z.lxor, which is also their mathematical
+   definition (bit i of the result = and / or / xor of the operands' bits i, Z.land_spec etc.) *)
+Lemma bitwise_ok : (forall a b, i_and a b = m_and a b) /\ (forall a b, i_or a b = m_or a b) /\ (forall a b, i_xor a b = m_xor a b).
 Proof. repeat split; reflexivity. Qed.
+
+(* ---------------- ADDMOD: the fast path and the 257-bit path of uint256.AddMod *)
+(* sums of two residues: S = x' + y' with 0 <= S < 2m, S = x + y (mod m) *)
+Lemma mod_of_near a m S k : 0 < m -> a = S + m * k -> 0 <= S < 2 * m ->
+  a mod m = if S <? m then S else S - m.
+Proof.
+  intros Hm Ha HS. destruct (Z.ltb_spec S m).
+  - symmetry. apply Zmod_unique with k; lia.
+  - symmetry. apply Zmod_unique with (k + 1); lia.
+Qed.
+
+Lemma addmod_ok a b n : in_word a -> in_word b -> in_word n -> i_addmod a b n = m_addmod a b n.
+Proof.
+  intros [Ha1 Ha2] [Hb1 Hb2] [Hn1 Hn2]. unfold i_addmod, m_addmod.
+  destruct (Z.eqb_spec n 0) as [->|Hn0]; [reflexivity|].
+  unfold u_addmod. rewrite !wrap_mod.
+  set (P := 6277101735386680763835789423207666416102355444464034512896).
+  assert (HP : W = P * 2 ^ 64) by reflexivity. assert (HPpos : 0 < P) by reflexivity.
+  destruct (negb (n / P =? 0) && (a / P <=? n / P) && (b / P <=? n / P)) eqn:Hfast.
+  - (* fast path *)
+    apply andb_prop in Hfast. destruct Hfast as (Hf & Hby). apply andb_prop in Hf. destruct Hf as (Hn3 & Hax).
+    apply negb_true_iff, Z.eqb_neq in Hn3. apply Z.leb_le in Hax. apply Z.leb_le in Hby.
+    assert (Hnd : n = P * (n / P) + n mod P) by (apply Z.div_mod; lia).
+    assert (Had : a = P * (a / P) + a mod P) by (apply Z.div_mod; lia).
+    assert (Hbd : b = P * (b / P) + b mod P) by (apply Z.div_mod; lia).
+    pose proof (Z.mod_pos_bound n P HPpos). pose proof (Z.mod_pos_bound a P HPpos). pose proof (Z.mod_pos_bound b P HPpos).
+    assert (0 < n / P). { assert (0 <= n / P) by (apply Z.div_pos; lia). lia. }
+    assert (Hn_ge : P <= n) by nia.
+    assert (Ha_lt : a < n + P) by nia. assert (Hb_lt : b < n + P) by nia.
+    set (a' := if n <=? a then a - n else a). set (b' := if n <=? b then b - n else b).
+    assert (Ha' : 0 <= a' < n /\ exists ka, a = a' + n * ka).
+    { unfold a'. destruct (Z.leb_spec n a). split; [lia|exists 1; lia]. split; [lia|exists 0; lia]. }
+    assert (Hb' : 0 <= b' < n /\ exists kb, b = b' + n * kb).
+    { unfold b'. destruct (Z.leb_spec n b). split; [lia|exists 1; lia]. split; [lia|exists 0; lia]. }
+    destruct Ha' as (Ba & ka & Ea). destruct Hb' as (Bb & kb & Eb).
+    rewrite (mod_of_near (a + b) n (a' + b') (ka + kb)) by lia.
+    destruct (Z.leb_spec W (a' + b')) as [Hc1|Hc1]; cbn [negb andb].
+    + (* carry out of the addition: the subtraction result is taken *)
+      assert (Er : (a' + b') mod W = a' + b' - W) by (symmetry; apply Zmod_unique with 1; lia).
+      rewrite Er. destruct (Z.ltb_spec (a' + b') n); [lia|].
+      symmetry. apply Zmod_unique with (-1); lia.
+    + rewrite (mod_small_W (a' + b')) by lia.
+      destruct (Z.ltb_spec (a' + b') n); [reflexivity|].
+      apply mod_small_W. lia.
+  - (* general path *)
+    destruct (Z.eqb_spec n 0); [lia|].
+    destruct (Z.leb_spec W (a + b)).
+    + assert (Er : (a + b) mod W = a + b - W) by (symmetry; apply Zmod_unique with 1; lia).
+      rewrite Er. f_equal. lia.
+    + rewrite (mod_small_W (a + b)) by lia. rewrite u_mod_spec by lia.
+      destruct (Z.eqb_spec n 0); [lia|reflexivity].
+Qed.
 
 Lemma slt_ok a b : in_word a -> in_word b -> i_slt a b = m_slt a b.
 Proof.
@@ -379,8 +507,8 @@ Qed.
 Theorem alu_matches_math_lemma (op : alu_op) (a b c : Z) :
   in_word a -> in_word b -> in_word c -> i_alu op a b c = m_alu op a b c.
 Proof.
-  intros Ha Hb Hc. destruct cmp_ok as (Hlt & Hgt & Heq & Hz & Hand & Hor & Hxor).
+  intros Ha Hb Hc. destruct bitwise_ok as (Hand & Hor & Hxor).
   destruct op; cbn [i_alu m_alu];
-    auto using add_ok, mul_ok, sub_ok, div_ok, sdiv_ok, mod_ok, smod_ok, addmod_ok, mulmod_ok, exp_ok, signextend_ok,
+    auto using lt_ok, gt_ok, eq_ok, iszero_ok, add_ok, mul_ok, sub_ok, div_ok, sdiv_ok, mod_ok, smod_ok, addmod_ok, mulmod_ok, exp_ok, signextend_ok,
       slt_ok, sgt_ok, not_ok, byte_ok, shl_ok, shr_ok, sar_ok.
 Qed.
